@@ -416,7 +416,8 @@ func ruleIDGRPC(c *Ctx) {
 					}
 					if c1, isC := ast.Unparen(as.Rhs[i]).(*ast.CallExpr); isC {
 						if s1, isS := c1.Fun.(*ast.SelectorExpr); isS && s1.Sel.Name == method {
-							if c2, isC2 := ast.Unparen(s1.X).(*ast.CallExpr); isC2 {
+							// listener.Addr().Network(), or through a local bound once to listener.Addr()
+							if c2, isC2 := ast.Unparen(p.Deref(f, s1.X)).(*ast.CallExpr); isC2 {
 								if s2, isS2 := c2.Fun.(*ast.SelectorExpr); isS2 && s2.Sel.Name == "Addr" && identObj(info, s2.X) == lv {
 									ok = true
 								}
